@@ -1,8 +1,9 @@
 (* Whatever sorts the Flattener drops ("undone" in front of a group), every take and every windowed
-   compute is handed exactly the order in effect at its position -- at any nesting depth -- except
-   behind an aggregate inside a group body (finding F44: the code ends the sort at an aggregate only
-   outside of groups). *)
-From Coq Require Import List Bool Lia.
+   compute is handed exactly the order in effect and the partition at its position -- at any nesting
+   depth -- except behind an aggregate inside a group body (finding F44: the code ends the sort at an
+   aggregate only outside of groups) and inside a group nested in a group with a non-empty key (finding
+   F45: the inner group is partitioned by its own key only). *)
+From Coq Require Import List Bool Arith Lia.
 From PV Require Import Model.Flatten.
 Import ListNotations.
 
@@ -12,7 +13,8 @@ Section Proofs.
   Notation flat := (flat key empty).
   Notation carried_spec := (carried_spec key empty).
   Notation carried_of := (carried_of key).
-  Notation tame := (tame key).
+  Notation tame_agg := (tame_agg key).
+  Notation tame_nest := (tame_nest key).
   Notation has_agg := (has_agg key).
 
   Lemma carried_of_app a b : carried_of (a ++ b) = carried_of a ++ carried_of b.
@@ -52,37 +54,37 @@ Section Proofs.
     - rewrite last_agg_cons by discriminate. apply IH. exact H2.
   Qed.
 
-  (* PARTIAL (the full statement, without the `tame` hypothesis, is refuted below) *)
+  (* PARTIAL (the full statement, without the two `tame` hypotheses, is refuted in Props/C03.v) *)
   Theorem flat_carries_order_in_effect_partial : forall fuel und part s p,
-    tame fuel (in_group part) p = true ->
+    tame_agg fuel (in_group part) p = true -> tame_nest fuel part p = true ->
     carried_of (fst (flat fuel und part s p)) = fst (carried_spec fuel part s p) /\
     (ends_agg (in_group part) p = false -> snd (flat fuel und part s p) = snd (carried_spec fuel part s p)).
   Proof.
-    induction fuel as [|f IH]; intros und part s p Ht; [cbn in Ht; discriminate|].
+    induction fuel as [|f IH]; intros und part s p Ht Hn; [cbn in Ht; discriminate|].
     destruct p as [|it rest]; [split; reflexivity|].
-    cbn [Flatten.tame] in Ht.
+    cbn [Flatten.tame_agg] in Ht. cbn [Flatten.tame_nest] in Hn.
     cbn [Flatten.flat Flatten.carried_spec].
-    destruct it as [k| | | | |ne body|body|body].
+    destruct it as [k| | | | |n body|body|body].
     - (* PSort *)
-      destruct (IH und part k rest Ht) as [H1 H2].
+      destruct (IH und part k rest Ht Hn) as [H1 H2].
       destruct (flat f und part k rest) as [o s'] eqn:E. cbn [fst snd] in *.
       split.
       + rewrite carried_of_app. destruct (und || existsb (is_ne_group key) rest); cbn; exact H1.
       + intro He. apply H2. eapply ends_agg_cons_false; [|exact He]. reflexivity.
     - (* PTake *)
-      destruct (IH und part s rest Ht) as [H1 H2].
+      destruct (IH und part s rest Ht Hn) as [H1 H2].
       destruct (flat f und part s rest) as [o s'] eqn:E.
       destruct (carried_spec f part s rest) as [o2 s2] eqn:E2. cbn [fst snd] in *.
       split; [rewrite carried_of_take, H1; reflexivity|].
       intro He. apply H2. eapply ends_agg_cons_false; [|exact He]. reflexivity.
     - (* PWin *)
-      destruct (IH und part s rest Ht) as [H1 H2].
+      destruct (IH und part s rest Ht Hn) as [H1 H2].
       destruct (flat f und part s rest) as [o s'] eqn:E.
       destruct (carried_spec f part s rest) as [o2 s2] eqn:E2. cbn [fst snd] in *.
       split; [rewrite carried_of_win, H1; reflexivity|].
       intro He. apply H2. eapply ends_agg_cons_false; [|exact He]. reflexivity.
     - (* POther *)
-      destruct (IH und part s rest Ht) as [H1 H2]. split; [exact H1|].
+      destruct (IH und part s rest Ht Hn) as [H1 H2]. split; [exact H1|].
       intro He. apply H2. eapply ends_agg_cons_false; [|exact He]. reflexivity.
     - (* PAgg *)
       apply andb_true_iff in Ht. destruct Ht as [Hc Ht].
@@ -92,21 +94,24 @@ Section Proofs.
         split.
         * destruct f; reflexivity.
         * unfold ends_agg. cbn. discriminate.
-      + rewrite <- Eg in Ht. destruct (IH und part empty rest Ht) as [H1 H2]. rewrite Eg in H2. split; [exact H1|].
+      + rewrite <- Eg in Ht. destruct (IH und part empty rest Ht Hn) as [H1 H2]. rewrite Eg in H2. split; [exact H1|].
         intros _. apply H2. reflexivity.
     - (* PGroup *)
       apply andb_true_iff in Ht. destruct Ht as [Htb Htr].
-      destruct (IH (if ne then true else und || existsb (is_ne_group key) rest) (Some ne) empty body Htb) as [B1 _].
-      destruct (IH und part empty rest Htr) as [H1 H2].
-      destruct (flat f (if ne then true else und || existsb (is_ne_group key) rest) (Some ne) empty body) as [ob sb] eqn:Eb.
+      apply andb_true_iff in Hn. destruct Hn as [Hn Hnr]. apply andb_true_iff in Hn. destruct Hn as [Hz Hnb].
+      apply Nat.eqb_eq in Hz. rewrite Hz. cbn [Nat.add].
+      destruct (IH (match n with S _ => true | O => und || existsb (is_ne_group key) rest end) (Some n) empty body Htb Hnb) as [B1 _].
+      destruct (IH und part empty rest Htr Hnr) as [H1 H2].
+      destruct (flat f (match n with S _ => true | O => und || existsb (is_ne_group key) rest end) (Some n) empty body) as [ob sb] eqn:Eb.
       destruct (flat f und part empty rest) as [o s'] eqn:E.
-      destruct (carried_spec f (Some ne) empty body) as [ob2 sb2] eqn:Eb2.
+      destruct (carried_spec f (Some n) empty body) as [ob2 sb2] eqn:Eb2.
       destruct (carried_spec f part empty rest) as [o2 s2] eqn:E2. cbn [fst snd] in *.
       split; [rewrite carried_of_app, B1, H1; reflexivity|].
       intro He. apply H2. eapply ends_agg_cons_false; [|exact He]. reflexivity.
     - (* PWindow *)
       apply andb_true_iff in Ht. destruct Ht as [Ht Htr]. apply andb_true_iff in Ht. destruct Ht as [Hc Htb].
-      destruct (IH (und || existsb (is_ne_group key) rest) part s body Htb) as [B1 B2].
+      apply andb_true_iff in Hn. destruct Hn as [Hnb Hnr].
+      destruct (IH (und || existsb (is_ne_group key) rest) part s body Htb Hnb) as [B1 B2].
       assert (Hb : ends_agg (in_group part) body = false).
       { unfold ends_agg. destruct (in_group part); [|reflexivity]. cbn [negb orb andb] in *.
         destruct f as [|f']; [cbn in Hc; discriminate|].
@@ -114,23 +119,24 @@ Section Proofs.
       specialize (B2 Hb).
       destruct (flat f (und || existsb (is_ne_group key) rest) part s body) as [ob sb] eqn:Eb.
       destruct (carried_spec f part s body) as [ob2 sb2] eqn:Eb2. cbn [fst snd] in *. subst sb2.
-      destruct (IH und part sb rest Htr) as [H1 H2].
+      destruct (IH und part sb rest Htr Hnr) as [H1 H2].
       destruct (flat f und part sb rest) as [o s'] eqn:E.
       destruct (carried_spec f part sb rest) as [o2 s2] eqn:E2. cbn [fst snd] in *.
       split; [rewrite carried_of_app, B1, H1; reflexivity|].
       intro He. apply H2. eapply ends_agg_cons_false; [|exact He]. reflexivity.
     - (* PSub *)
-      destruct (IH und part s rest Ht) as [H1 H2]. split; [exact H1|].
+      destruct (IH und part s rest Ht Hn) as [H1 H2]. split; [exact H1|].
       intro He. apply H2. eapply ends_agg_cons_false; [|exact He]. reflexivity.
   Qed.
 
   (* a whole query (outside of any group): both the sorts handed out and the sort left in effect *)
   Corollary flat_carries_order_in_effect_top : forall fuel und s p,
-    tame fuel false p = true ->
+    Flatten.tame key fuel None p = true ->
     carried_of (fst (flat fuel und None s p)) = fst (carried_spec fuel None s p) /\
     snd (flat fuel und None s p) = snd (carried_spec fuel None s p).
   Proof.
-    intros fuel und s p Ht. destruct (flat_carries_order_in_effect_partial fuel und None s p Ht) as [H1 H2].
+    intros fuel und s p Ht. unfold Flatten.tame in Ht. apply andb_true_iff in Ht. destruct Ht as [Ha Hn].
+    destruct (flat_carries_order_in_effect_partial fuel und None s p Ha Hn) as [H1 H2].
     split; [exact H1 | apply H2; reflexivity].
   Qed.
 
